@@ -141,10 +141,10 @@ def _strip_exception_details(msg):
     i = msg.find(':', 0, end)
     if i >= 0:
         end = i
-    # retain just the exception name
-    i = msg.rfind('.', 0, end)
-    if i >= 0:
-        start = i + 1
+    # retain just the exception name (the dots of an ellipsis are not the
+    # separators of a dotted module path)
+    for m in re.finditer(r'(?<!\.)\.(?!\.)', msg[0:end]):
+        start = m.start() + 1
     return msg[start: end]
 
 
